@@ -1,3 +1,4 @@
+import os
 import re
 from itertools import islice
 
@@ -705,12 +706,13 @@ def validate_unique_names(nodes):
         for node_ in nodes_:
             if isinstance(node_, Include):
                 """ outputs are named after the file: two different files of one name cannot both be used """
-                known = included.get(node_.name)
+                stem = node_.name.split("/")[-1]
+                known = included.get(stem)
                 if known is None:
-                    included[node_.name] = node_
+                    included[stem] = node_
                     visit(node_.members, False)
                 elif known is not node_ and known.members is not node_.members and known != node_:
-                    raise ModelError("two different files named '%s' are included" % node_.name)
+                    raise ModelError("two different files named '%s' are included" % stem)
             else:
                 define(node_.name, node_, own)
                 if isinstance(node_, Enum):
@@ -820,5 +822,11 @@ class ModelParser(object):
         if self.patcher:
             self.patcher(nodes)
         validate_unique_names(nodes)
+        if len(parse_args) > 1 and isinstance(parse_args[1], six.string_types):
+            """ outputs are named after the file: it cannot include another file of its own name """
+            own = os.path.splitext(os.path.basename(parse_args[1]))[0]
+            for node in nodes:
+                if isinstance(node, Include) and node.name.split("/")[-1] == own:
+                    raise ModelError("file '%s' includes another file of its own name" % own)
         nodes, _ = evaluate_model(nodes, self.emit.warn)
         return nodes
